@@ -19,12 +19,16 @@ pub struct PoolCase {
     pub idle: bool,
     /// yields of the spawning thread after each spawn (arrival pattern)
     pub yields: Vec<u8>,
+    /// each long-lived task is running before the next one is spawned (connections arriving one
+    /// after the other, each staying open)
+    #[serde(default)]
+    pub sequential: bool,
     pub tape: Vec<u8>,
 }
 
 pub fn pool_strategy(max_n: usize) -> BoxedStrategy<PoolCase> {
     (1..=max_n, prop_oneof![3 => Just(0usize), 2 => 1usize..8], any::<bool>(), proptest::collection::vec(0u8..3, 1..6), tape_strategy(160))
-        .prop_map(|(n, warmup, idle, yields, tape)| PoolCase { n, warmup, idle, yields, tape })
+        .prop_map(|(n, warmup, idle, yields, tape)| PoolCase { n, warmup, idle, yields, sequential: false, tape })
         .boxed()
 }
 
@@ -32,8 +36,10 @@ pub fn pool_strategy(max_n: usize) -> BoxedStrategy<PoolCase> {
 /// worker for as long as it lives
 pub fn pool_many_strategy(thorough: bool) -> BoxedStrategy<PoolCase> {
     let ns = if thorough { vec![64usize, 257, 300, 520, 1100] } else { vec![257usize, 300] };
-    (proptest::sample::select(ns), prop_oneof![Just(0usize), Just(3usize)], proptest::collection::vec(0u8..2, 1..3))
-        .prop_map(|(n, warmup, yields)| PoolCase { n, warmup, idle: false, yields, tape: vec![] })
+    // (the spawning thread yields after every spawn, as an accept loop that takes connections one by
+    // one does: every worker has started - and counts - before the next task arrives)
+    (proptest::sample::select(ns), prop_oneof![Just(0usize), Just(3usize)], proptest::collection::vec(1u8..3, 1..3))
+        .prop_map(|(n, warmup, yields)| PoolCase { n, warmup, idle: false, yields, sequential: true, tape: vec![] })
         .boxed()
 }
 
@@ -104,6 +110,13 @@ pub fn run_pool_case(case: &PoolCase) -> Verdict {
             for _ in 0..c.yields[i % c.yields.len()] {
                 rt::thread::yield_now();
             }
+            if c.sequential {
+                // (a task that never gets a worker shows as a deadlock right here)
+                let mut st = sh.st.lock().unwrap();
+                while st.started < i + 1 {
+                    st = sh.cv.wait(st).unwrap();
+                }
+            }
         }
         ph.store(3, Ordering::SeqCst);
         // every long-lived task must get a worker while all the others are still running
@@ -134,6 +147,9 @@ pub fn run_pool_case(case: &PoolCase) -> Verdict {
         return fail(sig, detail);
     }
     let (spawned, max_live, timeouts) = *counters.lock().unwrap();
+    if std::env::var("VERIF_TRACE").is_ok() {
+        eprintln!("TRACE pool: n={} spawned={} max_live={} timeouts={} end={:?}", case.n, spawned, max_live, timeouts, res.end);
+    }
     let mut g = if case.n >= 5 { Good { nontrivial: Some(res.stats.trace_hash), classes: vec![], extra_evals: 0 } } else { Good::trivial() };
     g = g
         .class(format!("n={}", case.n))
